@@ -15,6 +15,19 @@ LEVELS = {
                 "amino/protobuf/gob library determinism is observed, not proved.",
         "technique": "Lean 4 theorem (order-independence by induction over histories) + regenerated source facts + differential/two-process replica runs",
     },
+    "C11": {
+        "text": "Proof: C11_invariant (induction over all histories from any valid genesis, any map iteration orders) and C11_accept: on "
+                "every reachable state a transaction can extend the configuration list only if it is a BatchConfig vote whose sender plus "
+                "the earlier voters for that identical configuration are >= threshold(current) distinct members of the current "
+                "configuration, with strictly larger index and non-decreasing activation; the round is reset and exactly one fresh eon "
+                "(counter+1) is started. C11_one_vote, C11_nonce_once, C11_restart (failure quorum, newest eon only), C11_started "
+                "(block-seen quorum of the preceding set), C11_other_calls. Model tied to the code by differential histories; the "
+                "implementation's own answers are checked by an independent monitor.",
+        "design_ref": "DESIGN.md §4 C11",
+        "note": "Trusted: Lean kernel; correspondence harness; tx byte layer as a parameter; hypothesis Sized (message lists < 2^63 entries); "
+                "strict monotonicity of eon numbers assumes no uint64 wrap.",
+        "technique": "Lean 4 invariant proof by induction over histories + differential correspondence + necessary-condition monitor on the real app",
+    },
     "C12": {
         "text": "Proof: C12_diff_apply (apply(old, updates(old,new)) = new under Tendermint set/remove semantics, for all maps without "
                 "zero-power entries and all map iteration orders), C12_updates_sorted, C12_removals_present, C12_order_independent, "
